@@ -15,14 +15,14 @@ CONSTANTS
   TbindV <- Set1
   NameChoices <- Set01
   EndForms <- Set02
-  LabelStmts = FALSE
+  LabelStmts = TRUE
   Contains = TRUE
   PKinds <- KSent
   MaxEdits = 2
   InsSet <- InsSmall
   MinEdits = 0
   Randomised = FALSE
-  DumpMod = 1
+  DumpMod = 3
   NRepl = 17
   RichOnly = FALSE
   NeedStruct = FALSE
